@@ -72,10 +72,11 @@ CLAIMS = {
     "C08": dict(
         category="proof",
         text="No-panic proof for the parsers and reassemblers that consume network bytes: every index, slice, make, division and type-assertion obligation in the p2pmux demux functions, "
-             "fragswarm parseMessage/aggregator/handleTell, mbapp ParseMessage/Header accessors/bitMap/collector/fragLayer/handleMessage is generated from SSA for arbitrary input bytes and discharged; "
+             "fragswarm parseMessage/aggregator/handleTell, mbapp ParseMessage/Header accessors/bitMap/collector/fragLayer/handleMessage, p2pke parseInitHello and the DHT node's FindNode handler (any limit, negative included) is generated from SSA for arbitrary input bytes and discharged; "
+             "a new failing panic-class obligation in a function that was panic-free on the unchanged tree is reported even if that kind of obligation did not occur in it before; "
              "a refuted obligation is replayed on the real code through go test -overlay.",
         design_ref="DESIGN.md section 5, C08",
-        note=TRUST + "Not covered: p2pke message parsing (checked under C02/C03), quic/ssh library internals, address parsers (C16).",
+        note=TRUST + "Not covered: the other p2pke message parsers (protobuf decoding is a library; the readers are checked under C02/C03), the DHT node's Put/Get handlers, quic/ssh library internals, address parsers (C16).",
     ),
     "C09": dict(
         category="proof",
@@ -97,7 +98,7 @@ CLAIMS = {
              "a closed hub always carries a non-nil error, so Ask / ServeAsk on a closed swarm fail; p2pmux dispatches an ask only after it demultiplexed without error and with exactly the demultiplexed body; "
              "vswarm turns negative handler results into errors and refuses oversize asks; mbapp and sshswarm return an error, not a truncated success, when the response does not fit; the serving side of sshswarm (Conn.loop) answers ok=true only with the bytes a handler produced (a request the hub refused, or a negative result, is answered ok=false).",
         design_ref="DESIGN.md section 5, C11 and section 10",
-        note=TRUST + "Matching of responses to concurrent asks by id (mbapp map, quic streams) and timing are not covered.",
+        note=TRUST + "mbapp: an ask is registered under the text of the destination address and its (counter, origin time), and a reply looks up the text of its source address and its id (String() of an address is an uninterpreted function of the address); that the Go map returns what was stored under that key, matching on quic streams, and timing are not covered.",
     ),
     "C12": dict(
         category="proof",
